@@ -35,6 +35,7 @@ RULE = ("histories of 5..50 parse calls on one shared (lexer, parser) pair and o
         "import orders over a 600-string corpus; AliasRewriter with used instances. distinct = "
         "distinct (history prefix digest, probe); non-trivial = history contains at least one "
         "raising call before the probe")
+RULE += (" " + 'Also: near-twin corpus entries, inputs with two error causes, failed AliasRewriter constructions followed by probes.')
 ASSUMPTIONS = ["sharing one lexer instance between threads is not claimed by the property",
                "model outcome = fresh ODataLexer()/ODataParser() in the same interpreter, and "
                "across interpreters via outcome digests"]
